@@ -30,7 +30,7 @@ USE_CONTRACTS = True      # in-situ icontract monitors (vmon/contracts.py)
 DECIDING_COUNTERS = ["state_checks", "spatial_checks"]
 
 OPS = ["iloc", "loc", "mask", "head", "sort", "copy", "subset_with", "subset_without_active",
-       "subset_plain", "cx", "pickle", "concat", "set_geometry", "dask", "parquet", "dask_ops"]
+       "subset_plain", "cx", "pickle", "concat", "set_geometry", "dask", "parquet", "dask_ops", "reconstruct"]
 
 
 def shards(tier, seed):
@@ -270,6 +270,8 @@ def check_case(ctx, case):
                 new = df.sort_values("val") if r.random() < 0.5 else df.sort_index(ascending=False)
             elif op == "copy":
                 new = df.copy()
+            elif op == "reconstruct":
+                new = GeoDataFrame(df)                      # a geo frame built from a geo frame
             elif op == "subset_with":
                 others = [c for c in df.columns if c != act and r.random() < 0.5]
                 cols = others + [act]
